@@ -232,8 +232,72 @@ def replay(beh, tier, seed, opts):
                     break
         except Exception as e:  # pylint: disable=broad-except
             fail("folded_raise", op=n["op"], detail=repr(e)[:300], trace=traceback.format_exc()[-500:])
+    # (iv) the graph as the weight of sum layers of a small circuit, compiled under every
+    #      fold x optimize combination (parameter-graph optimisation rules, folding of whole
+    #      parameter graphs): two sum layers carry the graph under valuation a and b
+    if len(last["shape"]) == 2 and not res["failures"]:
+        circuit_level(nodes, uses, h, fail, res)
     res["tags"] = sorted({n["op"] for n in nodes})
     return res
+
+
+def circuit_level(nodes, uses, h, fail, res):
+    from cirkit.symbolic.circuit import Circuit  # pylint: disable=import-outside-toplevel
+    from cirkit.symbolic.layers import EmbeddingLayer, SumLayer  # pylint: disable=import-outside-toplevel
+    from cirkit.utils.scope import Scope  # pylint: disable=import-outside-toplevel
+    last = nodes[-1]
+    ko, ki = last["shape"]
+    for fold, opt in ((False, True), (True, False), (True, True)):
+        try:
+            comp = TorchCompiler(semiring="sum-product", fold=fold, optimize=opt)
+            roots = []
+            for which in ("a", "b"):
+                tensors = {}
+                for i, n in enumerate(nodes):
+                    if n["op"] == "leaf" and n["kind"] != "const":
+                        tensors[i] = TensorParameter(*n["shape"],
+                                                     initializer=ConstantTensorInitializer(actual(n, which)))
+                        if n["kind"] == "ref" or uses[i] > 1:
+                            comp.compile_parameter(Parameter.from_input(tensors[i])).reset_parameters()
+
+                def use(i, which=which, tensors=tensors):
+                    n = nodes[i]
+                    if n["op"] == "leaf":
+                        if n["kind"] == "const":
+                            return Parameter.from_input(ConstantParameter(*n["shape"], value=actual(n, which)))
+                        if n["kind"] == "ref" or uses[i] > 1:
+                            return Parameter.from_input(ReferenceParameter(tensors[i]))
+                        return Parameter.from_input(tensors[i])
+                    built = [use(a - 1) for a in n["args"]]
+                    sn = sym_node(n, [nodes[a - 1]["shape"] for a in n["args"]], h + i)
+                    return Parameter.from_nary(sn, *sym_args(n, built))
+                roots.append(use(len(nodes) - 1))
+            ns = max(ki, 2)
+            emb = EmbeddingLayer(Scope([0]), ki, num_states=ns, weight=Parameter.from_input(
+                ConstantParameter(ki, ns, value=np.eye(ns)[:ki])))
+            sums = [SumLayer(ki, ko, arity=1, weight=r) for r in roots]
+            circ = Circuit([emb] + sums, {sl: [emb] for sl in sums}, sums)
+            cc = comp.compile(circ)
+            with torch.no_grad():
+                out = cc(torch.arange(ki).reshape(-1, 1))          # (ki, 2, ko): out[j, o, :] = W_o[:, j]
+            res["evals"] += 1
+            if tuple(out.shape) != (ki, 2, ko):
+                fail("circuit_shape", op=last["op"], fold=fold, optimize=opt,
+                     detail=f"output shape {tuple(out.shape)} expected {(ki, 2, ko)}")
+                continue
+            for o, which in enumerate(("a", "b")):
+                obs = out[:, o, :].numpy().T
+                ok, exp = compare(last, which, obs)
+                if not ok:
+                    fail("circuit_value", op=last["op"], ops=[n["op"] for n in nodes], fold=fold, optimize=opt,
+                         axis=last["axis"],
+                         detail=f"fold={fold} optimize={opt} valuation {which}: the parameter graph used as a "
+                                f"sum weight evaluates to {obs.tolist()} expected {exp.tolist()} "
+                                f"(dom {last['dom']})"[:600])
+                    break
+        except Exception as e:  # pylint: disable=broad-except
+            fail("circuit_raise", op=last["op"], ops=[n["op"] for n in nodes], fold=fold, optimize=opt,
+                 detail=repr(e)[:300], trace=traceback.format_exc()[-600:])
 
 
 def worker(args):
